@@ -1,7 +1,8 @@
 (* C05 property theorems: statements only; every proof is [exact lemma]. *)
 From Gv Require Import lib.Bytes lib.Gql C05.Lex C05.Parse C05.Limits C05.Print C05.Spec C05.Tokens
   C05.ProofsLex C05.ProofsLimits C05.ProofsParse C05.ProofsMisc C05.ProofsTotal C05.ProofsRoundtrip C05.ProofsWf
-  C05.ProofsFinal C05.ProofsInline C05.ProofsNul C05.ProofsRequote C05.PreFix C15.Model gen.Anchors_C05.
+  C05.ProofsFinal C05.ProofsInline C05.ProofsNul C05.ProofsRequote C05.PreFix C15.Model gen.Anchors_C05
+  C05.ProofsLexPrintDefs C05.ProofsLexPrintFinal.
 From Coq Require Import ZArith.
 
 (* the model uses the rune / keyword / identifier-keyword tables of the Go source, and the source has the repairs
@@ -136,6 +137,38 @@ Theorem c05_print_fixpoint_partial : forall ind b d r d' r',
   parse_bytes (print_doc ind d) = Ok d' r' -> print_doc ind d' = print_doc ind d.
 Proof. exact print_fixpoint_partial_proof. Qed.
 Print Assumptions c05_print_fixpoint_partial.
+
+(* THE LEXICAL HALF, proved: for every document the parser returns, lexing its print (compact, or indented with a
+   white-space indent) yields exactly the token-level print.  Every name / number / string / block-string literal of
+   a parsed document is the literal of a lexer token that had a successor, and such a literal, written by the printer
+   and followed by a delimiter, is read back by Lexer.Read as the same token (ProofsLexPrint*.v).  Side conditions:
+   the input and the print are shorter than 2^32 bytes (uint32 token offsets), and the indent handed to PrintIndent
+   consists of white-space bytes (SPACE TAB CR LF COMMA) -- it is written verbatim, see c05_indent_must_be_ws. *)
+Theorem c05_lex_print : forall ind b d r,
+  (len b < two32)%N -> (len (print_doc ind d) < two32)%N -> ind_ws ind = true ->
+  parse_bytes b = Ok d r -> lex_print_ok_b ind d = true.
+Proof. exact lex_print_ok_proof. Qed.
+Print Assumptions c05_lex_print.
+
+(* hence the round trip on bytes, without the executable hypothesis *)
+Theorem c05_roundtrip : forall ind b d r,
+  (len b < two32)%N -> (len (print_doc ind d) < two32)%N -> ind_ws ind = true ->
+  parse_bytes b = Ok d r -> parse_bytes (print_doc ind d) = Ok d [].
+Proof. exact roundtrip_proof. Qed.
+Print Assumptions c05_roundtrip.
+
+Theorem c05_print_fixpoint : forall ind b d r d' r',
+  (len b < two32)%N -> (len (print_doc ind d) < two32)%N -> ind_ws ind = true ->
+  parse_bytes b = Ok d r -> parse_bytes (print_doc ind d) = Ok d' r' -> print_doc ind d' = print_doc ind d.
+Proof. exact print_fixpoint_proof. Qed.
+Print Assumptions c05_print_fixpoint.
+
+(* the side condition on the indent is needed: with the indent "x", {a} prints as { LF x a LF } and re-parses to
+   the field xa *)
+Theorem c05_indent_must_be_ws :
+  exists d d', parse_bytes witness_indent = Ok d [] /\ parse_bytes (print_doc (Some [120%N]) d) = Ok d' [] /\ d' <> d.
+Proof. exact indent_must_be_ws_proof. Qed.
+Print Assumptions c05_indent_must_be_ws.
 
 (* since c15_fix_block-quote-next-to-whitespace and c05_fix_rt-block-string-edge the lexer and ast.PrintValue are
    inverse to each other on block strings: for EVERY text [body] between two delimiters that the lexer delimits
